@@ -5,14 +5,14 @@ from hypothesis import given, strategies as st
 from vf import common
 from vf import strategies as vs
 from vf.common import Violation
-from vf.world import interfere, make_sketch, numba_seed, snapshot, snap_diff, snap_equal, sut, windows
+from vf.world import CELLMAP, interfere, make_sketch, numba_seed, snapshot, snap_diff, snap_equal, sut, windows
 
 RULE = (
     "Hypothesis-generated cases for all five sketch classes (count-min linear/log16/log8 with width in {1,2,3,5,16} and depth 1..3, log "
     "configurations incl. small max_count and num_reserved in {0,1,3,15}; heavy hitters width 1..4 depth 1..3 max_key_len in {2,4,16}; "
     "HyperLogLog p in {7,9,12} with any uint64 seed): three sketches of equal configuration are pre-loaded with a common random history, log "
     "types get an identical planted batch of 2048 PRNG draws, then sketch A receives one compound call (update(list), update(dict) with "
-    "multiplicities 1..10^4 (log: 1..300), add(key,v), add_ngram(key,n) with n in 1..len+2 (keys up to 40 bytes, occasionally 250..300 bytes), update_ngram(list,n), update() fed an iterable that itself adds a key to the same sketch while being consumed, update() fed an iterable that raises after j keys (the caller catches it)), sketch B the loop of "
+    "multiplicities 1..10^4 (log: 1..3000; half of the log add(key,v) cases have their draws planted AT the advance thresholds base^-(c-num_reserved) of the counters the call passes through, one ulp below = advance / equal = stay), add(key,v), add_ngram(key,n) with n in 1..len+2 (keys up to 40 bytes, occasionally 250..300 bytes), update_ngram(list,n), update() fed an iterable that itself adds a key to the same sketch while being consumed, update() fed an iterable that raises after j keys (the caller catches it)), sketch B the loop of "
     "per-item calls (add(key) / add(key,value) / add_ngram per element) and sketch C the loop of single unit adds (one add per window / per unit of "
     "multiplicity). Oracle: full public state of A, B and C identical (tables, n_added_records, rand_ptr for log types), still identical after a "
     "common continuation of 6 further adds that keeps consuming each sketch's own draw batch; sketch[key]==query(key) for count-min. "
@@ -76,7 +76,13 @@ def cases(draw):
         op["keys"] = draw(st.lists(st.one_of(key, vs.biased_bytes(0, 24), vs.biased_bytes(0, 24), st.binary(min_size=254, max_size=260)), min_size=0, max_size=4))
         op["n"] = draw(st.integers(1, 9))
     cont = draw(st.lists(st.tuples(key, st.integers(1, 30)), min_size=6, max_size=6))
-    return {"cfg": cfg, "pre": pre, "op": op, "cont": cont, "rs": draw(st.integers(0, 2**31 - 2)), "as_counter": draw(st.booleans())}
+    case = {"cfg": cfg, "pre": pre, "op": op, "cont": cont, "rs": draw(st.integers(0, 2**31 - 2)), "as_counter": draw(st.booleans())}
+    if log and kind == "add" and draw(st.booleans()):
+        # draws AT the advance thresholds of the counters the call passes through (just below = advance, equal = stay)
+        op["v"] = draw(st.integers(2, 60))
+        case["pre"] = pre + [(op["k"], draw(st.sampled_from([1, 3, 15, 16, 40])))]
+        case["thr"] = draw(st.lists(st.booleans(), min_size=1, max_size=8))
+    return case
 
 
 class _Interrupted(Exception):
@@ -139,6 +145,38 @@ def full_state(sk, kind):
     return s
 
 
+def threshold_batch(case, batch):
+    """The draw batch for the compound call of a 'thr' case: the j-th draw sits at the advance threshold
+    base**-(c - num_reserved) of the counter c the key holds at that moment - one ulp below it (the counter advances)
+    or exactly on it (it stays), as case['thr'] says.  The thresholds are found by walking a scratch sketch through
+    the unit adds; they are inputs, the oracle stays compound call == loop of single adds."""
+    cfg = case["cfg"]
+    op = case["op"]
+    D = sut(make_sketch, cfg)
+    D.rand_nums[:] = batch[::-1]
+    D.rand_ptr = 0
+    for k, v in case["pre"]:
+        sut(D.add, k, v)
+    cells = CELLMAP.cells(cfg, op["k"])
+    base, nr = float(D.base), int(D.num_reserved)
+    ds = []
+    for j in range(op["v"]):
+        c = min(int(D.cms[r, col]) for r, col in enumerate(cells))
+        if c < nr:
+            d = 0.5
+        else:
+            P = base ** (-(float(c) - float(nr)))
+            d = float(np.nextafter(P, 0.0)) if case["thr"][j % len(case["thr"])] else P
+        D.rand_nums[:] = d
+        D.rand_ptr = 0
+        sut(D.add, op["k"], 1)
+        if int(D.rand_ptr) == 1:
+            ds.append(d)
+    out = batch.copy()
+    out[: len(ds)] = ds
+    return out
+
+
 def run_case(case):
     cfg = case["cfg"]
     from vf.world import reset_interference
@@ -148,6 +186,9 @@ def run_case(case):
     log = kind in ("log8", "log16")
     A, B, C = (sut(make_sketch, cfg) for _ in range(3))
     batch = np.random.default_rng(case["rs"]).random(2048)
+    op_batch = batch
+    if log and case.get("thr") and case["op"]["op"] == "add":
+        op_batch = threshold_batch(case, batch)
     for sk in (A, B, C):
         if log:
             sk.rand_nums[:] = batch[::-1]
@@ -155,7 +196,7 @@ def run_case(case):
         for k, v in case["pre"]:
             sut(sk.add, k, v)
         if log:
-            sk.rand_nums[:] = batch
+            sk.rand_nums[:] = op_batch
             sk.rand_ptr = 0
     op = case["op"]
     interfere(cfg)
@@ -257,7 +298,7 @@ def _shard(arg):
     def test(case):
         holder["case"] = case
         ok = run_case(case)
-        rec.case(case, bool(ok) and nontrivial(case), [f"kind={case['cfg']['kind']}", f"op={case['op']['op']}"] + ([] if ok else ["skipped_near_refill"]))
+        rec.case(case, bool(ok) and nontrivial(case), [f"kind={case['cfg']['kind']}", f"op={case['op']['op']}"] + ([] if ok else ["skipped_near_refill"]) + (["draws_at_advance_thresholds"] if case.get("thr") else []))
 
     common.run_given(test, common.derive_seed(seed, "C12", shard), n_examples, holder, rec, retry=run_case)
     return rec
